@@ -1,4 +1,5 @@
 import Ledger.Proofs.SchedLocks
+import Ledger.Proofs.SchedImport
 import Ledger.Proofs.SchedHandles
 import Ledger.Proofs.SchedWitnesses
 
@@ -10,10 +11,15 @@ for its whole run (several SQL transactions); a write on a ledger whose state
 tracker still says `initializing` takes the TRANSACTION-scoped lock on the same key
 inside its transaction, before the state update and the operation. Proved for ALL
 schedules: `lock_excludes` for that key; the step-level facts (a second locker waits;
-the state update re-evaluates its WHERE on the latest version). The tie facts show the
-real programs take the lock first. The all-schedules statement
-`import_write_never_interleave_any_schedule` itself is NOT proved yet (kernel-evaluated
-examples + the `import` correspondence workload).
+the state update re-evaluates its WHERE on the latest version), and
+`import_write_never_interleave_any_schedule`: for every schedule and all programs following the
+discipline "a log INSERT on the ledger runs inside a transaction while the ledger lock is held;
+the session lock is released only when no log of the session is uncommitted" (`Safe`), while
+one session holds the ledger lock no other session has an uncommitted log of the ledger nor
+commits one. `Import` is proved to follow the discipline for every answer of every statement
+(`import_is_safe`); for the state tracker's first-write path the discipline is NOT proved (its
+lock must survive failed statements inside the savepoint, which needs one more monitor fact) —
+that path is covered by the regenerated tie, kernel-evaluated examples and the `import` workload.
 -/
 namespace Ledger.C12s
 open Ledger.Sched
@@ -32,6 +38,41 @@ theorem ledger_lock_excludes (s : Sid) (l : Nat) (σ : Schedule) (w : World)
   exact ⟨h.2, fun t ht => heldBy_excl s t _ ht _ h⟩
 
 example : AdvWf {} := by intro a ha; cases ha
+
+/-- `import_write_never_interleave_any_schedule`: for every schedule, in every world reached from one
+    satisfying the ledger-lock discipline, while session `s` holds the ledger lock of `l₀` (an Import
+    between its lock and unlock, or a first write inside its transaction) any other session `t` has no
+    uncommitted log of `l₀`, and a step of `t` commits no log of `l₀`. -/
+theorem import_write_never_interleave_any_schedule (l₀ : Nat) (σ : Schedule) (w₀ : World)
+    (hg : GInv (impDisc l₀) w₀) (s t : Sid) (hts : t ≠ s) (hheld : Holds (run σ w₀) s (ledgerKey l₀)) :
+    (∀ e ∈ (run σ w₀).logs, e.l = l₀ → e.by_ = t → e.com = true) ∧
+    (step (run σ w₀) t).logCommits.filter (fun c => c.1 = l₀) = (run σ w₀).logCommits.filter (fun c => c.1 = l₀) :=
+  holder_excludes_log_commits (impDisc l₀) (run σ w₀) (ginv_run (impDisc l₀) σ w₀ hg) s t hts hheld
+
+/-- `Import` follows the discipline, for every answer of every statement -/
+theorem import_is_safe (l : Nat) (sync : Bool) (logs : List ImpLog) :
+    Safe (impDisc l) {} (importProg l sync logs) := safe_importProg l sync logs {} rfl
+
+/-- non-vacuity: two concurrent Imports into the same initializing ledger satisfy the hypothesis; the one
+    that locks second waits through all of the first one's transactions and is then rejected -/
+example :
+    let w₀ : World := { state := fun l => if l = 1 then { com := some false } else {}
+                        sess := fun s => if s = 1 ∨ s = 2 then { prog := importProg 1 false exImp } else {} }
+    GInv (impDisc 1) w₀ ∧
+    (run ([1, 2] ++ List.replicate 15 1 ++ List.replicate 4 2) w₀).logCommits = [(1, 1, 1), (1, 2, 1)] ∧
+    (run ([1, 2] ++ List.replicate 15 1 ++ List.replicate 4 2) w₀).resp 2 = some { err := "import" } := by
+  intro w₀
+  refine ⟨⟨(by intro a ha; cases ha), fun s => ⟨{}, ⟨?_, ?_, ?_, ?_, ?_, ?_⟩, ?_⟩⟩, by decide, by decide⟩
+  · intro h; cases h
+  · intro h; cases h
+  · intro h; cases h
+  · intro _ e he; cases he
+  · intro h; cases h
+  · intro h; cases h
+  · show Safe _ _ (if s = 1 ∨ s = 2 then _ else _ : Session).prog
+    split
+    · exact import_is_safe 1 false exImp
+    · trivial
 
 /-- the session lock of Import and the transaction lock of a first write are the same key, distinct
     from the log-insert lock -/
